@@ -262,6 +262,7 @@ def validate(trace_module, records, workdir, shards=None, cost=cost_default, tim
         md = os.path.join(workdir, "meta.%s.%s.%d" % (label, trace_module, k))
         procs.append((k, tp, md, spawn_tlc(trace_module, cfg, md, env={"TRACE": tp})))
     verdicts = {}
+    extras = []
     gen = dist = 0
     for k, tp, md, p in procs:
         try:
@@ -278,6 +279,8 @@ def validate(trace_module, records, workdir, shards=None, cost=cost_default, tim
         gen += r.generated
         dist += r.distinct
         for v in r.printed:
+            if isinstance(v, list) and v and v[0] not in ("DONE", "BAD"):
+                extras.append(v)
             if isinstance(v, list) and v and v[0] == "DONE":
                 verdicts[v[1]] = ("DONE", v[2])
             elif isinstance(v, list) and v and v[0] == "BAD":
@@ -293,6 +296,7 @@ def validate(trace_module, records, workdir, shards=None, cost=cost_default, tim
             raise ToolError("trace spec %s: history %s accepted at %d of %d events" % (trace_module, r["id"], v[1], len(r["ev"])))
     stats = {"module": trace_module, "histories": len(records), "events": sum(len(r["ev"]) for r in records),
              "states": dist, "transitions": gen, "wall_s": round(time.time() - t0, 1), "shards": len(procs)}
+    stats["_extras"] = extras
     return verdicts, stats
 
 
@@ -359,6 +363,30 @@ class Run:
         log("[mc %s/%s] %d distinct, %d generated, %.1fs" % (module, cfg, r.distinct, r.generated, r.wall))
         return r
 
+    def apalache(self, module, cinit, inv="Inv", length=1, timeout=600, expect_error=False):
+        """symbolic check of spec/apalache/<module>.tla with Apalache (bounded by `length` steps from an arbitrary initial state)"""
+        if self.collect:
+            return None
+        out = os.path.join(self.work, "apalache.%s.%s" % (module, cinit))
+        t0 = time.time()
+        try:
+            p = subprocess.run(["apalache-mc", "check", "--cinit=" + cinit, "--init=Init", "--next=Step", "--inv=" + inv, "--length=%d" % length, "--out-dir=" + out,
+                                module + ".tla"], cwd=os.path.join(SPEC, "apalache"), capture_output=True, text=True, timeout=timeout)
+        except subprocess.TimeoutExpired:
+            raise ToolError("Apalache timeout: %s %s" % (module, cinit))
+        finally:
+            shutil.rmtree(out, ignore_errors=True)
+        ok = "The outcome is: NoError" in p.stdout
+        err = "The outcome is: Error" in p.stdout
+        if not ok and not err:
+            raise ToolError("Apalache did not finish %s/%s:\n%s" % (module, cinit, (p.stdout + p.stderr)[-1500:]))
+        if ok == expect_error:
+            raise ToolError("Apalache %s/%s: expected %s, got %s (the specification itself is inconsistent)" % (module, cinit, "a counterexample" if expect_error else "no error", "no error" if ok else "a counterexample"))
+        self.mc.append({"module": "apalache/" + module, "cfg": cinit, "states": 0, "transitions": 0, "depth": length, "symbolic": True,
+                        "outcome": "NoError" if ok else "Error (expected)", "wall_s": round(time.time() - t0, 1)})
+        log("[apalache %s/%s] %s, %.1fs" % (module, cinit, "no error" if ok else "counterexample (expected)", time.time() - t0))
+        return ok
+
     def generate(self, module, cfg, timeout=900, xmx="8g", workers=1, extra=()):
         """behaviours printed by TLC as ["GEN", hist] lines"""
         r = run_tlc(module, cfg, os.path.join(self.work, "gen." + cfg), workers=workers, timeout=timeout, xmx=xmx, extra=extra)
@@ -391,6 +419,7 @@ class Run:
         label = label or ("%s.%s" % (trace_module, tag))
         verdicts, stats = validate(trace_module, recs, os.path.join(self.work, label), shards=shards, cost=cost, timeout=timeout, label=label)
         stats["build"] = tag
+        self.last_extras = stats.pop("_extras", [])
         self.tv.append(stats)
         nbad = 0
         for r in recs:
@@ -401,6 +430,20 @@ class Run:
                                         "trace_module": trace_module, "desc": (describe(r, v) if describe else {})})
         log("[tv %s %s] %d histories, %d events, %d rejected, %.1fs" % (trace_module, tag, stats["histories"], stats["events"], nbad, stats["wall_s"]))
         return {"records": recs, "verdicts": verdicts}
+
+    def model_eval(self, module, recs, label, cost=cost_default, timeout=1500):
+        """evaluate a specification-internal relation (e.g. a transcription of the code's algorithm against the standard's definition) on the
+        given inputs with TLC; a disagreement is an inconsistency of the specification (tool error), never a verdict on the crate.
+        Returns the extra lines the module printed (e.g. coverage classes)."""
+        verdicts, stats = validate(module, recs, os.path.join(self.work, label), cost=cost, timeout=timeout, label=label)
+        extras = stats.pop("_extras", [])
+        bad = [i for i, v in verdicts.items() if v[0] != "DONE"]
+        if bad:
+            raise ToolError("specification inconsistency: %s rejects %d of its own evaluations (first: %s)" % (module, len(bad), verdicts[bad[0]]))
+        self.mc.append({"module": module, "cfg": "evaluation on %d inputs" % len(recs), "states": stats["states"], "transitions": stats["transitions"], "depth": 1,
+                        "wall_s": stats["wall_s"]})
+        log("[model-eval %s] %d inputs, %.1fs" % (module, len(recs), stats["wall_s"]))
+        return extras
 
     def drive_on(self, histories, tag, label):
         """execute the histories on build `tag` without judging"""
@@ -428,6 +471,7 @@ class Run:
         """merged: product records {id, tags, ev: [{op, outs: [out per copy]}]}; base: the record blamed in a replay file (same order)"""
         wd = os.path.join(self.work, label)
         verdicts, stats = validate("TraceEquiv", merged, wd, cost=lambda m: 1 + sum(len(e["outs"][0]["v"]) for e in m["ev"]) / 50.0, timeout=timeout, label=label)
+        stats.pop("_extras", None)
         alltags = sorted({t for m in merged for t in m["tags"]})
         stats["build"] = "+".join(alltags) if len(alltags) <= 6 else "%d copies" % len(alltags)
         self.tv.append(stats)
